@@ -313,13 +313,14 @@ func (t *Tree) parseInnerExpr() (Expr, error) {
 		nxt := t.peek()
 		val := tok.value
 		if nxt.tokenType == tokenPunctuation && nxt.value == "." {
-			val = val + "."
 			t.next()
-			nxt, err := t.expect(tokenNumber)
-			if err != nil {
-				return nil, err
+			if frac := t.peek(); frac.tokenType == tokenNumber {
+				t.next()
+				val = val + "." + frac.value
+			} else {
+				// "a.0.b": the dot is not a decimal point, it belongs to what follows
+				t.backup()
 			}
-			val = val + nxt.value
 		}
 		return NewNumberExpr(val, tok.Pos), nil
 
